@@ -26,7 +26,8 @@ LEVEL_TEXT = ("Random histories (5-40 calls) of sample / marginal / conditional 
               "same monitors; constructors are tested for copy-on-construct by mutating the caller's objects afterwards.")
 LEVEL_NOTE = "Callables stored in an ANM are shared by reference (they are not arrays, sets or dicts); the documented output buffer of cartesian is exempt."
 RULE = ("cases: (model kind, model parameters, call history) and (utility workload on a graph).  distinct = distinct canonical case; "
-        "non-trivial = a history with at least one intervention or conditioning call, or a utility workload on a graph with >= 2 edges")
+        "non-trivial = a history with at least one intervention or conditioning call, or a utility workload on a graph with >= 2 edges"
+        " Also: arguments omitted so that the functions' own default objects are used (they are fingerprinted too), numpy-style negative index arrays, bool adjacency matrices, LGANMs with 65-75 variables, queries put to the used object and a twin in several orders.")
 ASSUMPTIONS = ["library-internal nested calls are not judged separately: their effect on caller data is visible at the outer call boundary"]
 EXHAUSTIVE = {"quick": False, "thorough": False}
 SOFT_LIMIT = {"quick": 240, "thorough": 1500}
